@@ -154,6 +154,8 @@ of_list = sym('of_list', (_Ref,), T, None)            # ndarray holding the numb
 lenT = sym('lenT', (T,), I, lambda a: len(a))
 wit = sym('wit', (T,), I, None)                        # index of a true entry of a boolean vector (when there is one)
 
+addaxis1 = sym('addaxis1', (T,), T, lambda a: a[:, None])       # a[:, np.newaxis]
+
 # ---- spec functions (contract vocabulary)
 mdist = sym('mdist', (T, T, T), R,                         # d_L(x, y) = || L (x - y) ||_2
             lambda L, x, y: float(_np.sqrt(((L @ (x - y)) ** 2).sum())))
@@ -277,6 +279,8 @@ for _n, _f in _cmpz.items():
   ax('len_cmp_%s' % _n, 'lib', [a, s], lenT(cmps(_n)(a, s)) == lenT(a), [z3.MultiPattern(lenT(cmps(_n)(a, s)))], ['lenT', 'cmp_%s_s' % _n])
 ax('len_abs', 'lib', [a], lenT(absT(a)) == lenT(a), [z3.MultiPattern(absT(a))], ['absT'])
 ax('at1_abs', 'lib', [a, i], at1(absT(a), i) == z3.If(at1(a, i) >= 0, at1(a, i), -at1(a, i)), [z3.MultiPattern(at1(a, i), absT(a))], ['at1', 'absT'])
+ax('squeeze1_addaxis1', 'lib', [a], squeeze1(addaxis1(a)) == a, [z3.MultiPattern(squeeze1(addaxis1(a)))], ['squeeze1', 'addaxis1'], ieee=True,
+   gen=dict(a='mat(n,d)'))
 # ---- math: real sqrt
 ax('sqrt_nonneg', 'math', [s], sqrt(s) >= 0, [z3.MultiPattern(sqrt(s))], ['sqrt'], lean='Real.sqrt_nonneg', gen=dict(s='real'))
 ax('sqrt_sq', 'math', [s], z3.Implies(s >= 0, sqrt(s) * sqrt(s) == s), [z3.MultiPattern(sqrt(s))], ['sqrt'],
